@@ -2,7 +2,7 @@
 Everything is drawn from the rng passed in, so a seed reproduces a run exactly."""
 import json
 
-COMPS = ["a", "ab", "app", "app2", "app-web", "lib", "b", "core", "x", "src", "ü"]
+COMPS = ["a", "ab", "app", "app2", "app-web", "lib", "b", "core", "x", "src", "ü", "日本", " sp", "tr ", "é\u00a0"]   # odd but legal: non-ASCII, leading / trailing blanks
 SUFFIX = ["2", "-web", "b", "_x", ".d"]
 FILES = ["f.txt", "main.rs", "README.md", "x", "mod.rs"]
 
